@@ -343,6 +343,13 @@ func (g *Gen) checkFunction(name string, p *PropConfig, bl *Baseline, tier strin
 	// obligations outside the baseline: one fast attempt, only a definite model matters
 	for _, o := range others {
 		o := o
+		if tier != "thorough" && bl.NotClaimed[o.ID] {
+			// known not to discharge on the unchanged tree and never claimed: its answer cannot
+			// change the outcome, so the quick tier does not spend solver time on it
+			or := mk(o)
+			or.Answer, or.Solver = "skipped", ""
+			continue
+		}
 		wg.Add(1)
 		go func() {
 			defer wg.Done()
@@ -366,6 +373,9 @@ func (g *Gen) checkFunction(name string, p *PropConfig, bl *Baseline, tier strin
 	// vacuity probes
 	for _, o := range covers {
 		o := o
+		if tier != "thorough" && c.spec == nil {
+			continue // no contract of ours can be contradictory here; thorough probes every function
+		}
 		wg.Add(1)
 		go func() {
 			defer wg.Done()
